@@ -159,12 +159,9 @@ theorem step_err (reg : Registry) (s s' : PState) (it : Item) (e : PErr)
     | semFail =>
       simp only [pstep, Prod.mk.injEq] at h; obtain ⟨rfl, _⟩ := h; simp
     | schemaSemFail =>
-      simp only [pstep, Prod.mk.injEq] at h; obtain ⟨rfl, _⟩ := h
-      rw [(rp _ _).1, (rp _ _).2]; simp
+      simp only [pstep, Prod.mk.injEq] at h; obtain ⟨rfl, _⟩ := h; simp
     | schemaSemOk =>
-      simp only [pstep, Prod.mk.injEq] at h; obtain ⟨rfl, _⟩ := h
-      simp only [processOnt]
-      rw [(rp _ _).1, (rp _ _).2]; simp
+      simp only [pstep, Prod.mk.injEq] at h; obtain ⟨rfl, _⟩ := h; simp
   | event idx type source gateOk =>
     simp only [pstep] at h
     cases hont : s.ont with
